@@ -176,6 +176,9 @@ def _attrs_in_flow(fa: FA, expr, at, param):
     for (n, a_) in flow_nodes(fa, expr, at):
         if isinstance(n, ast.Attribute) and isinstance(n.value, ast.Name) and (n.value.id == param or param_rooted(fa, n.value, a_, param)):
             out.add(n.attr)
+        elif isinstance(n, ast.Call) and isinstance(n.func, ast.Name) and n.func.id == "getattr" and 2 <= len(n.args) <= 3 and A.const_str(n.args[1]) \
+                and isinstance(n.args[0], ast.Name) and (n.args[0].id == param or param_rooted(fa, n.args[0], a_, param)):
+            out.add(A.const_str(n.args[1]))
     return out
 
 
@@ -510,7 +513,7 @@ def check_reference_fields_carried(ck, R):
     locally, or the external stand-in (asked for, or fallen back to when the lookup fails) — the values it was
     handed reach the constructed object: at every construction site, and through the stand-in's own constructor
     down to the fields of the reference."""
-    fq = FA(ck, "reference.FunctionReference.from_qualified_name")
+    fq = _unrolled(FA(ck, "reference.FunctionReference.from_qualified_name"))
     own = [p for p in fq.fi.params if p not in ("self", "cls")]
     ck.need(all(p in own for p in CARRIED), "from_qualified_name no longer takes %s" % (CARRIED,))
     stub_params = _ctor_params(ck, "external.UnboundExternalMementoFunction")
@@ -827,6 +830,9 @@ def _unrolled(fa: FA) -> FA:
             it = _static(fa, loop.iter, ids[0])
             if isinstance(it, (ast.Tuple, ast.List)) and it is not None and not any(isinstance(x, ast.Starred) for x in it.elts):
                 return [tg.id], [[x] for x in it.elts]
+            if isinstance(it, ast.Constant) and isinstance(it.value, str):
+                # a loop over the characters of a literal string
+                return [tg.id], [[ast.Constant(value=ch)] for ch in it.value]
             return None
         if not (isinstance(tg, (ast.Tuple, ast.List)) and all(isinstance(t, ast.Name) for t in tg.elts)):
             return None
@@ -886,10 +892,86 @@ def _unrolled(fa: FA) -> FA:
     node2 = copy.deepcopy(fa.node)
     # rows are resolved on the ORIGINAL loops (they have CFG nodes): pair the copies with their originals
     origin = {}
+    comp_origin = {}
     for a, b in zip(ast.walk(node2), ast.walk(fa.node)):
         if isinstance(a, ast.For):
             origin[id(a)] = b
+        elif isinstance(a, (ast.DictComp, ast.ListComp, ast.GeneratorExp)):
+            comp_origin[id(a)] = b
     node2.body = block(node2.body)
+
+    def written_out(c):
+        """{k: f(v) for (k, v) in <literal table>} / [f(x) for x in <literal table>] -> the literal it builds."""
+        orig = comp_origin.get(id(c))
+        if orig is None or len(c.generators) != 1 or c.generators[0].ifs or c.generators[0].is_async:
+            return None
+        st = fa.stmt_of(orig)
+        ids = fa.nodes(st) if st is not None else []
+        if not ids:
+            return None
+        g = orig.generators[0]
+        tg = g.target
+        if isinstance(tg, ast.Name):
+            it = _static(fa, g.iter, ids[0])
+            if not isinstance(it, (ast.Tuple, ast.List)) or any(isinstance(x, ast.Starred) for x in it.elts):
+                return None
+            names, rows = [tg.id], [[x] for x in it.elts]
+        elif isinstance(tg, (ast.Tuple, ast.List)) and all(isinstance(t, ast.Name) for t in tg.elts):
+            rows = _literal_rows(fa, g.iter, ids[0])
+            if rows is None or any(len(r) != len(tg.elts) for r in rows):
+                return None
+            names = [t.id for t in tg.elts]
+        else:
+            return None
+        if not (0 < len(rows) <= 40):
+            return None
+
+        def inst(e, row):
+            env = dict(zip(names, row))
+
+            class T(ast.NodeTransformer):
+                def visit_Name(self, n):
+                    if isinstance(n.ctx, ast.Load) and n.id in env:
+                        return ast.copy_location(copy.deepcopy(env[n.id]), n)
+                    return n
+
+            return T().visit(copy.deepcopy(e))
+
+        if isinstance(c, ast.DictComp):
+            return ast.copy_location(ast.Dict(keys=[inst(c.key, r) for r in rows], values=[inst(c.value, r) for r in rows]), c)
+        if isinstance(c, ast.GeneratorExp):
+            return ast.copy_location(ast.Tuple(elts=[inst(c.elt, r) for r in rows], ctx=ast.Load()), c)
+        return ast.copy_location(ast.List(elts=[inst(c.elt, r) for r in rows], ctx=ast.Load()), c)
+
+    class Comps(ast.NodeTransformer):
+        def visit_DictComp(self, c):
+            self.generic_visit(c)
+            lit = written_out(c)
+            if lit is not None:
+                changed[0] = True
+                return lit
+            return c
+
+        visit_ListComp = visit_DictComp
+
+        def visit_Assign(self, st):
+            # `a, b = (f(k) for k in <literal table>)` (also through tuple(..) / list(..)): the names are bound to the members one by one
+            self.generic_visit(st)
+            v = st.value
+            while isinstance(v, ast.Call) and isinstance(v.func, ast.Name) and v.func.id in ("tuple", "list") and len(v.args) == 1 and not v.keywords:
+                v = v.args[0]
+            if isinstance(v, ast.GeneratorExp):
+                v = written_out(v) or v
+            tg = st.targets[0] if len(st.targets) == 1 else None
+            if isinstance(tg, (ast.Tuple, ast.List)) and isinstance(v, (ast.Tuple, ast.List)) and len(tg.elts) == len(v.elts) >= 1 \
+                    and all(isinstance(t, ast.Name) for t in tg.elts) and not any(isinstance(x, ast.Starred) for x in v.elts):
+                bound = {t.id for t in tg.elts}
+                if len(bound) == len(tg.elts) and not any(isinstance(n, ast.Name) and n.id in bound for x in v.elts for n in ast.walk(x)):
+                    changed[0] = True
+                    return [ast.copy_location(ast.Assign(targets=[ast.Name(id=t.id, ctx=ast.Store())], value=x), st) for t, x in zip(tg.elts, v.elts)]
+            return st
+
+    node2 = Comps().visit(node2)
     if not changed[0]:
         return fa
     ast.fix_missing_locations(node2)
@@ -1239,11 +1321,269 @@ def check_dict_keys_survive(ck, R):
           "argument hash differs - the decoded memento is not the one that was stored", ea.where())
 
 
+# ---- normalisation is the codec round trip -----------------------------------------------------------------
+AH = "reference.ArgumentHasher"
+# the class facts of the standard library the argument codec relies on (subclass -> base)
+_BASE_OF = {"bool": "int", "datetime.datetime": "datetime.date", "datetime": "date"}
+
+
+def _bases(tok):
+    out = [tok]
+    while out[-1] in _BASE_OF:
+        out.append(_BASE_OF[out[-1]])
+    return out
+
+
+class _Adm:
+    """What a condition says about the object a parameter holds: `classes` - the classes it is an instance of (None:
+    not bounded), `excluded` - classes it is not an instance of, `extras` - the other facts known about it
+    (text with the parameter written `_P_`, polarity)."""
+
+    def __init__(self, classes=None, excluded=(), extras=()):
+        self.classes = None if classes is None else frozenset(classes)
+        self.excluded = frozenset(excluded)
+        self.extras = frozenset(extras)
+
+    def both(self, o):
+        if self.classes is not None and o.classes is not None:
+            c = self.classes & o.classes
+            if not c:
+                c = self.classes if len(self.classes) <= len(o.classes) else o.classes
+        else:
+            c = self.classes if self.classes is not None else o.classes
+        return _Adm(c, self.excluded | o.excluded, self.extras | o.extras)
+
+    def either(self, o):
+        c = (self.classes | o.classes) if self.classes is not None and o.classes is not None else None
+        return _Adm(c, self.excluded & o.excluded, self.extras & o.extras)
+
+
+def _class_tokens(fa: FA, t):
+    """The classes named by the second argument of isinstance / the operand of a comparison with type(x)."""
+    t = _static(fa, t, None)
+    if isinstance(t, (ast.Tuple, ast.List, ast.Set)):
+        out = set()
+        for e in t.elts:
+            s = _class_tokens(fa, e)
+            if s is None:
+                return None
+            out |= s
+        return out
+    if isinstance(t, ast.Call) and isinstance(t.func, ast.Name) and t.func.id == "type" and len(t.args) == 1 and A.is_none(t.args[0]):
+        return {"None"}
+    d = A.dotted(t)
+    return {d} if d else None
+
+
+def _admitted(fa: FA, e, pol: bool, param: str) -> _Adm:
+    """The class facts about `param` that hold when the test `e` comes out `pol`."""
+    def is_p(x):
+        return isinstance(x, ast.Name) and x.id == param
+
+    def type_of_p(x):
+        return (isinstance(x, ast.Call) and isinstance(x.func, ast.Name) and x.func.id == "type" and len(x.args) == 1 and is_p(x.args[0])) or \
+            (isinstance(x, ast.Attribute) and x.attr == "__class__" and is_p(x.value))
+
+    if isinstance(e, ast.UnaryOp) and isinstance(e.op, ast.Not):
+        return _admitted(fa, e.operand, not pol, param)
+    if isinstance(e, ast.BoolOp):
+        parts = [_admitted(fa, v, pol, param) for v in e.values]
+        conj = isinstance(e.op, ast.And) == pol
+        acc = parts[0]
+        for p_ in parts[1:]:
+            acc = acc.both(p_) if conj else acc.either(p_)
+        return acc
+    if isinstance(e, ast.Call) and isinstance(e.func, ast.Name) and e.func.id == "isinstance" and len(e.args) == 2 and is_p(e.args[0]):
+        ks = _class_tokens(fa, e.args[1])
+        if ks is not None:
+            return _Adm(ks) if pol else _Adm(None, ks)
+    if isinstance(e, ast.Compare) and len(e.ops) == 1:
+        l, op, r = e.left, e.ops[0], e.comparators[0]
+        if isinstance(op, (ast.IsNot, ast.NotEq, ast.NotIn)):
+            op = {ast.IsNot: ast.Is, ast.NotEq: ast.Eq, ast.NotIn: ast.In}[type(op)]()
+            pol = not pol
+        if isinstance(op, (ast.Is, ast.Eq)) and ((is_p(l) and A.is_none(r)) or (is_p(r) and A.is_none(l))) and isinstance(op, ast.Is):
+            return _Adm({"None"}) if pol else _Adm(None, {"None"})
+        if isinstance(op, (ast.Is, ast.Eq, ast.In)) and (type_of_p(l) or (type_of_p(r) and not isinstance(op, ast.In))):
+            ks = _class_tokens(fa, r if type_of_p(l) else l)
+            if ks is not None:
+                # the exact class: an instance of it; the negation says nothing about instances of subclasses
+                return _Adm(ks) if pol else _Adm()
+    if not any(is_p(x) for x in ast.walk(e)):
+        return _Adm()
+    import copy
+
+    class T(ast.NodeTransformer):
+        def visit_Name(self, n):
+            return ast.copy_location(ast.Name(id="_P_", ctx=n.ctx), n) if n.id == param else n
+
+    txt = A.norm(T().visit(copy.deepcopy(e)))
+    if isinstance(e, ast.Compare) and len(e.ops) == 1 and isinstance(e.ops[0], (ast.IsNot, ast.NotEq, ast.NotIn)):
+        e2 = copy.deepcopy(e)
+        e2.ops = [{ast.IsNot: ast.Is, ast.NotEq: ast.Eq, ast.NotIn: ast.In}[type(e.ops[0])]()]
+        return _Adm(None, (), {(A.norm(T().visit(e2)), not pol)})
+    return _Adm(None, (), {(txt, pol)})
+
+
+def _admitted_by(fa: FA, conds, param: str) -> _Adm:
+    """The class facts that hold on every path class of a DNF of FA.conditions literals."""
+    acc = None
+    for conj in conds:
+        a = _Adm()
+        for (txt, pol) in sorted(conj):
+            try:
+                e = ast.parse(txt, mode="eval").body
+            except SyntaxError:
+                continue
+            a = a.both(_admitted(fa, e, pol, param))
+        acc = a if acc is None else acc.either(a)
+    return acc if acc is not None else _Adm()
+
+
+def _strip_cast(e):
+    while isinstance(e, ast.Call) and isinstance(e.func, ast.Name) and e.func.id == "cast" and len(e.args) == 2 and not e.keywords:
+        e = e.args[1]
+    return e
+
+
+def _applied(e, fnames, inner):
+    """Is `e` the call f(inner-ish) for f one of `fnames`: -> the argument, else None."""
+    e = _strip_cast(e)
+    if isinstance(e, ast.Call) and A.call_attr(e) in fnames and len(e.args) == 1 and not e.keywords and not isinstance(e.args[0], ast.Starred):
+        return _strip_cast(e.args[0])
+    return None
+
+
+def _member_map(e, param, is_mapped):
+    """'list' for [g(x) for x in P], 'dict' for {k: g(v) for (k, v) in P.items()} (one generator, no filter, keys kept) where
+    `is_mapped(expr, member name)` recognises g(member); else None."""
+    if isinstance(e, (ast.ListComp, ast.DictComp)) and len(e.generators) == 1:
+        g = e.generators[0]
+        if g.ifs or g.is_async:
+            return None
+        if isinstance(e, ast.ListComp) and isinstance(g.iter, ast.Name) and g.iter.id == param and isinstance(g.target, ast.Name) and is_mapped(e.elt, g.target.id):
+            return "list"
+        if isinstance(e, ast.DictComp) and isinstance(g.iter, ast.Call) and A.call_attr(g.iter) == "items" and not g.iter.args and \
+                isinstance(A.call_recv(g.iter), ast.Name) and A.call_recv(g.iter).id == param and isinstance(g.target, ast.Tuple) and len(g.target.elts) == 2 and \
+                all(isinstance(x, ast.Name) for x in g.target.elts) and isinstance(e.key, ast.Name) and e.key.id == g.target.elts[0].id and \
+                g.target.elts[0].id != g.target.elts[1].id and is_mapped(e.value, g.target.elts[1].id):
+            return "dict"
+    return None
+
+
+def check_normalize_is_round_trip(ck, R):
+    """"The argument hash recomputed from the decoded arguments equals the original one": a reference keeps - and hashes, and
+    writes - the NORMALISED arguments, so what normalisation returns has to be exactly what reading the written form yields.
+    On every path class `normalize(x)` is therefore decode(encode(x)), or provably equal to it:
+      * x itself, where the path condition confines x to the classes that BOTH the encoder and the decoder hand back
+        unchanged (derived from their own pass-through cases - not a fixed list);
+      * a list / dict rebuilt with every member normalised, where encoder and decoder map their own function over the
+        members of that same class under the same side conditions.
+    A class that the encoder rewrites (dates, timestamps, function references ...) kept as it is would be hashed and stored
+    in its own spelling (a pd.Timestamp with nanoseconds, a zone object of another library), which is not what the decoder
+    produces from the stored document."""
+    ck.rule(R, "ArgumentHasher.normalize returns decode(encode(x)) on every path (x itself only for the classes both coders pass through)", 2)
+    nm, enc, dec = FA(ck, AH + ".normalize"), FA(ck, AH + "._encode"), FA(ck, AH + "._decode")
+    names = {"n": nm.fi.name, "e": enc.fi.name, "d": dec.fi.name}
+
+    def cases_of(fa):
+        prm = _first_param(fa, "obj")
+        rc = return_cases(fa)
+        ck.need(rc is not None, "%s: too many paths to enumerate what it returns" % fa.qual)
+        out = []
+        for (v, at, conds) in rc:
+            val = _strip_cast(fa.expand(v, at)) if v is not None else None
+            out.append((val, at, _admitted_by(fa, conds, prm), prm))
+        return out
+
+    def passes_through(fa):
+        """(classes handed back unchanged, classes carved out of them by an earlier case)"""
+        classes, holes = set(), set()
+        for (val, _at, adm, prm) in cases_of(fa):
+            if isinstance(val, ast.Name) and val.id == prm and adm.classes is not None:
+                classes |= adm.classes
+                holes |= adm.excluded
+        return classes, {h for h in holes if any(b in classes for b in _bases(h)[1:])}
+
+    e_same, e_holes = passes_through(enc)
+    d_same, d_holes = passes_through(dec)
+    same = e_same & d_same
+    holes = e_holes | d_holes
+
+    def kept_ok(adm):
+        if adm.classes is None:
+            return False, "any object"
+        bad = sorted(c for c in adm.classes if not any(b in same for b in _bases(c)))
+        if bad:
+            return False, "instances of " + ", ".join(bad)
+        carved = sorted(h for h in holes if h not in adm.excluded and any(b in adm.classes for b in _bases(h)))
+        if carved:
+            return False, "instances of " + ", ".join(carved)
+        return True, ""
+
+    def rt_call(e, member):
+        """normalize(member) / decode(encode(member))"""
+        a = _applied(e, {names["n"]}, None)
+        if isinstance(a, ast.Name) and a.id == member:
+            return True
+        a = _applied(e, {names["d"]}, None)
+        a = _applied(a, {names["e"]}, None) if a is not None else None
+        return isinstance(a, ast.Name) and a.id == member
+
+    def coder_cases(fa, fname):
+        out = []
+        for (val, _at, adm, prm) in cases_of(fa):
+            kind = _member_map(val, prm, lambda x, m: isinstance(_applied(x, {fname}, None), ast.Name) and _applied(x, {fname}, None).id == m) if val is not None else None
+            if kind is not None:
+                out.append((kind, adm))
+        return out
+
+    e_maps, d_maps = coder_cases(enc, names["e"]), coder_cases(dec, names["d"])
+    n_cases = cases_of(nm)
+    ck.need(n_cases, "normalize: no return found")
+    bad_kept, bad_other = [], []
+    n_rt = 0
+    for (val, at, adm, prm) in n_cases:
+        st = nm.cfg.node(at).ast
+        if val is not None and rt_call(val, prm):
+            n_rt += 1
+            continue
+        if (isinstance(val, ast.Name) and val.id == prm) or (A.is_none(val) if val is not None else False) and adm.classes == frozenset({"None"}):
+            ok, who = kept_ok(adm)
+            if not ok:
+                bad_kept.append((st, who))
+            continue
+        kind = _member_map(val, prm, rt_call) if val is not None else None
+        if kind is not None and adm.classes == frozenset({kind}):
+            def matches(ms):
+                return any(k == kind and a.classes == adm.classes and a.extras == adm.extras and
+                           not any(kind in _bases(h)[1:] and h not in adm.excluded for h in a.excluded) for (k, a) in ms)
+            if matches(e_maps) and matches(d_maps):
+                continue
+        bad_other.append((st, A.short(val, 60) if val is not None else "None"))
+    okk = not bad_kept
+    ck.ob(R, nm.key(None, "kept-as-is-only-pass-through-classes"), okk,
+          "normalize hands x back unchanged only for classes both coders pass through (%s)" % ", ".join(sorted(same)) if okk else
+          "normalize returns its argument as it is for %s, but the encoder writes those in another form and the decoder builds a new object from it "
+          "(both pass through only %s): the reference keeps, hashes and writes a value that decoding the stored memento does not produce - e.g. a "
+          "pd.Timestamp with nanoseconds or a subclass instance stays what it was - so the decoded arguments and the hash recomputed from them "
+          "differ from the stored ones" % ("; ".join(sorted({w for (_s, w) in bad_kept})), ", ".join(sorted(same)) or "nothing"),
+          nm.where(bad_kept[0][0]) if bad_kept else nm.where())
+    oko = not bad_other and (n_rt >= 1 or not bad_kept)
+    ck.ob(R, nm.key(None, "every-return-is-the-round-trip"), oko and n_rt >= 1,
+          "every other return of normalize is decode(encode(x)) (or a list / dict of normalised members where both coders map members)" if oko and n_rt >= 1 else
+          ("normalize returns `%s`, which is not decode(encode(x)) nor shown equal to it: arguments are kept in a form that reading the stored "
+           "document does not give back, so decoded arguments / recomputed hash differ from the originals" % bad_other[0][1]) if bad_other else
+          "normalize no longer takes any value through decode(encode(x))",
+          nm.where(bad_other[0][0]) if bad_other else nm.where())
+
+
 def check(ck):
     from .memo import check_new_memo_tables
     ck.run(check_new_memo_tables, ck, "C11.M1", ('serialization', 'reference', 'metadata'))
     ck.run(check_plain_json, ck, "C11.R8")
     ck.run(check_dict_keys_survive, ck, "C11.R9")
+    ck.run(check_normalize_is_round_trip, ck, "C11.R10")
     R1, R2, R3, R4, R5 = ("C11.R%d" % i for i in range(1, 6))
     ck.rule(R1, "pairwise key agreement: for each encode/decode pair the keys of the emitted object equal the keys the decoder reads", 7)
     ck.rule(R2, "field coverage: for each rebuilt class, constructor parameters == keyword arguments the decoder passes, "
@@ -1256,8 +1596,9 @@ def check(ck):
     em_by_pair = {}
     ctor_by_pair = {}
     for (name, cls_qual) in PAIRS:
-        enc = FA(ck, "%s.encode_%s" % (MC, name))
-        dec = FA(ck, "%s.decode_%s" % (MC, name))
+        # (loops / comprehensions over a literal table of field names are decided as the entries they stand for)
+        enc = _unrolled(FA(ck, "%s.encode_%s" % (MC, name)))
+        dec = _unrolled(FA(ck, "%s.decode_%s" % (MC, name)))
         d = _emitted(enc)
         ck.need(d is not None, "encode_%s does not return a dict literal" % name)
         em_by_pair[name] = (enc, d)
@@ -1374,6 +1715,32 @@ def check(ck):
     # the 'Z' suffix isoformat() writes for UTC must be read as UTC explicitly (or by isoparse / an explicit tzinfos table) -- D54
     dd_ = FA(ck, MC + ".decode_datetime")
     ddp = _first_param(dd_, "state")
+    from .fresh import path_cases
+    zlit = "%s.endswith('Z')" % ddp
+
+    def is_text(e):
+        return isinstance(e, ast.Name) and e.id == ddp
+
+    def z_cut_off(e):
+        """state[:-1] / state[0:-1] / state[:len(state) - 1] / state.removesuffix('Z') / state.rstrip('Z')"""
+        if isinstance(e, ast.Subscript) and is_text(e.value) and isinstance(e.slice, ast.Slice) and e.slice.step is None:
+            lo, up = e.slice.lower, e.slice.upper
+            minus = isinstance(up, ast.UnaryOp) and isinstance(up.op, ast.USub) and _int_const(up.operand) == 1   # -1 / -len('Z')
+            if (lo is None or _int_const(lo) == 0) and up is not None and (minus or A.norm(up) in ("len(%s) - 1" % ddp, "len(%s) - len('Z')" % ddp)):
+                return True
+        return isinstance(e, ast.Call) and isinstance(e.func, ast.Attribute) and e.func.attr in ("removesuffix", "rstrip") and is_text(e.func.value) \
+            and len(e.args) == 1 and A.const_str(e.args[0]) == "Z"
+
+    def compatible(ca, cb):
+        return any(not any((t, not pol) in y for (t, pol) in x) for x in (ca or [frozenset()]) for y in (cb or [frozenset()]))
+
+    def gives_utc(n):
+        """<value>.replace(tzinfo=<UTC>)"""
+        return isinstance(n, ast.Call) and isinstance(n.func, ast.Attribute) and n.func.attr == "replace" and A.kwarg(n, "tzinfo") is not None \
+            and any(w in A.norm(A.kwarg(n, "tzinfo")) for w in ("UTC", "utc", "tzutc"))
+
+    rcases = return_cases(dd_)
+    ck.need(rcases is not None, "decode_datetime: too many paths to enumerate what it returns")
     n_parse = 0
     for c in dd_.calls():
         if A.call_attr(c) != "parse" and not (isinstance(c.func, ast.Name) and c.func.id == "parse"):
@@ -1384,26 +1751,29 @@ def check(ck):
         if any(k.arg == "tzinfos" for k in c.keywords):
             continue
         at = dd_.nodes(c)[0]
-        arg = dd_.xnorm(c.args[0], at)
-        zlit = "%s.endswith('Z')" % ddp
-        conds = dd_.conditions(c)
-        stripped = arg in ("%s[:-1]" % ddp, "%s[0:-1]" % ddp, "%s.removesuffix('Z')" % ddp, "%s.rstrip('Z')" % ddp)
-        if stripped:
-            # the suffix is cut off: the parsed (naive) value has to be given UTC explicitly wherever it flows to a return
-            utc = False
-            for r in dd_.returns():
-                t = dd_.xnorm(r.value, dd_.nodes(r)[0]) if r.value is not None and dd_.nodes(r) else ""
-                if A.norm(c.args[0]) in t or arg in t:
-                    utc = "replace(tzinfo=" in t and any(w in t for w in ("UTC", "utc", "tzutc"))
-                    if not utc:
-                        break
-            ok = utc
-            why = "the 'Z' suffix is cut off but the parsed value is not given UTC: a UTC datetime comes back naive"
-        else:
-            ok = conds is not None and bool(conds) and all((zlit, False) in cj for cj in conds) and arg == ddp
-            why = ("dateutil.parser.parse is handed the text with its 'Z' suffix: it reports the zone name 'UTC' and attaches the LOCAL zone "
-                   "when that is also called UTC (TZ=UTC+3): Memento.time and every UTC datetime argument shift by the local offset "
-                   "in the round trip, and the argument hash recomputed from the file differs from the stored one")
+        acases = path_cases(dd_, c.args[0], at, also=(ddp,))
+        ck.need(acases is not None, "decode_datetime: too many paths to tell what text the parser receives")
+        ok, why = True, ""
+        for (av, a_at, aconds) in acases:
+            ae = _strip_cast(dd_.expand(av, a_at))
+            if z_cut_off(ae):
+                # the suffix is cut off: wherever the parsed (naive) value flows into what is returned, it has been given UTC on the way
+                for (rv, r_at, rconds) in rcases:
+                    if rv is None or not compatible(aconds, rconds):
+                        continue
+                    if not any(n is c for (n, _a) in flow_nodes(dd_, rv, r_at)):
+                        continue
+                    if any(n is c for (n, _a) in flow_nodes(dd_, rv, r_at, stop=gives_utc)):
+                        ok, why = False, "the 'Z' suffix is cut off but the parsed value is not given UTC: a UTC datetime comes back naive"
+            elif is_text(ae):
+                if not (aconds and all((zlit, False) in cj for cj in aconds)):
+                    ok = False
+                    why = why or ("dateutil.parser.parse is handed the text with its 'Z' suffix: it reports the zone name 'UTC' and attaches the LOCAL zone "
+                                  "when that is also called UTC (TZ=UTC+3): Memento.time and every UTC datetime argument shift by the local offset "
+                                  "in the round trip, and the argument hash recomputed from the file differs from the stored one")
+            else:
+                ok = False
+                why = why or "dateutil.parser.parse is handed `%s`: it cannot be told that a 'Z' suffix never reaches the zone-name lookup of the parser" % A.short(ae, 50)
         ck.ob(R1, dd_.key(c, "zone-name-not-left-to-the-parser"), ok,
               "a 'Z' suffix never reaches the zone-name lookup of the parser" if ok else why, dd_.where(c))
     ck.need(n_parse >= 1 or bool(dd_.calls("isoparse")) or bool(dd_.calls("fromisoformat")), "decode_datetime: no parser call found")
